@@ -448,6 +448,7 @@ def count_calls(e, pred):
 
 def rule_leaf_arms(ctx, rep, cfgs):
     g9b = rep.rule('G9b', 'each leaf arm of _get_action evaluates at most one callback (exactly one when configured) and then the matching constructor: Skip | Emit(Variant) | Emit(Variant(lex.slice())) | CallbackRetVal::construct(cb_result, ctor) | CallbackResult::from(SkipRetVal::construct(cb_result)); it never moves the span itself', floor=300)
+    g9d = rep.rule('G9d', 'each leaf arm of _get_action produces the variant (or the skip) its own leaf was declared with: unit variants through Emit(Name::V) / construct(cb, |()| Name::V), value variants through Name::V(lex.slice()) / construct(cb, Name::V), skips through Skip / SkipRetVal — compared with the leaf table the derive printed in the same run', floor=300)
     for cfg in cfgs:
         for d, m, sm in models(ctx, cfg):
             if m is None:
@@ -476,6 +477,17 @@ def rule_leaf_arms(ctx, rep, cfgs):
                 rep.inst(g9b, k, detail=form)
                 if form.startswith('?'):
                     rep.viol(g9b, 'leaf-arm:%s' % k, 'leaf arm %s of %s is not one of the audited forms: %s' % (leaf, d.name, form), d.name)
+                # G9d: the arm produces what the leaf of that index was declared to produce (variant and kind as the
+                # derive printed them in the same run): glue code shared between leaves would report another variant
+                inv = getattr(d, 'inv', None)
+                li = _leaf_index(leaf)
+                if inv is not None and inv.leaves is not None and li is not None and li < len(inv.leaves) and not form.startswith('?'):
+                    decl = inv.leaves[li]['variant']
+                    want = ('skip', None) if decl == '<skip>' else (('value', decl[:-3]) if decl.endswith('(_)') else ('unit', decl))
+                    got = leaf_target(body)
+                    rep.inst(g9d, k, detail=dict(declared=decl))
+                    if got != want:
+                        rep.viol(g9d, 'leaf-target:%s' % k, 'leaf %s of %s is declared as %s but its arm of _get_action produces %s' % (leaf, d.name, decl, got), d.name)
                 # generated statements (outside the user callback expression) never touch the span
                 for st in body:
                     if st.get('s') == 'let' and st['pat'].get('name') == 'cb_result':
@@ -485,6 +497,41 @@ def rule_leaf_arms(ctx, rep, cfgs):
                         rep.viol(g9b, 'leaf-arm-span:%s' % k, 'leaf arm %s moves the span outside the callback' % leaf, d.name)
             if sorted(seen) != sorted(leaves):
                 rep.viol(g9b, 'leaf-arms-missing:%s:%s' % (d.backend, dkey(d)), '_get_action handles leaves %s, LogosLeaf has %s' % (sorted(seen), sorted(leaves)), d.name)
+
+
+def leaf_target(body):
+    """what a leaf arm produces: ('skip', None) | ('unit', Variant) | ('value', Variant) | None when not recognisable"""
+    def last(pth):
+        return pth.split('::')[-1]
+    if not body:
+        return None
+    e = body[-1].get('e') if body[-1].get('s') == 'expr' else None
+    if e is None:
+        return None
+    if is_path(e) and e['path'].endswith('CallbackResult::Skip'):
+        return ('skip', None)
+    if e.get('k') != 'call' or e['func'].get('k') != 'path':
+        return None
+    f = e['func']['path']
+    if f.endswith('CallbackResult::from'):
+        return ('skip', None)
+    if f.endswith('CallbackResult::Emit') and len(e['args']) == 1:
+        a = e['args'][0]
+        if is_path(a, 'token'):
+            for st in body[:-1]:
+                if st.get('s') == 'let' and st['pat'].get('name') == 'token' and st['init'].get('k') == 'call' and is_path(st['init']['func']):
+                    return ('value', last(st['init']['func']['path']))
+            return None
+        if is_path(a):
+            return ('unit', last(a['path']))
+        return None
+    if f.endswith('CallbackRetVal::construct') and len(e['args']) == 2:
+        c = e['args'][1]
+        if c.get('k') == 'closure' and is_path(c.get('body')):
+            return ('unit', last(c['body']['path']))
+        if is_path(c):
+            return ('value', last(c['path']))
+    return None
 
 
 def leaf_form(body, lexv='lex'):
